@@ -3,7 +3,7 @@ import json, os, tempfile, math
 import numpy as np
 from fractions import Fraction
 from . import tlc
-from .common import EXACT_EMBS, DEC_EMBS, unfl, run_driver_parallel
+from .common import EXACT_EMBS, DEC_EMBS, EXTREME_EMBS, unfl, run_driver_parallel
 from .dgm import gen_dgm, to_float_dgm, fin
 from .fix import fix, fix_trunc_from_int, SCALE
 
@@ -133,7 +133,7 @@ def validate(ctx, pairs, embs, label, mine, nproc=12, dual=False):
 
 
 def all_embs():
-    return EXACT_EMBS + DEC_EMBS
+    return EXACT_EMBS + DEC_EMBS + EXTREME_EMBS
 
 
 def run(ctx, mine):
